@@ -7,6 +7,7 @@ import (
 	"net/http/httptest"
 	"strings"
 	"sync"
+	"sync/atomic"
 	"time"
 
 	metav1 "k8s.io/apimachinery/pkg/apis/meta/v1"
@@ -85,7 +86,8 @@ type gapBed struct {
 	srvs  []*gapServer
 	https []*httptest.Server
 	arr   *arrivals
-	infoN int // number of server-info GETs that have arrived (at any server)
+	infoN int     // number of server-info GETs that have arrived (at any server)
+	down  []int32 // per server: 1 = answers 503 to everything
 	// what the fleet publishes now: shard -> server index, -1 = no entry, -2 = entry with empty leader
 	table []int
 	ever  []map[int]bool // shard -> servers ever published as its leader (what a gateway may still remember)
@@ -157,6 +159,7 @@ func tableString(t []int) string {
 func sparseTables(r *vkit.R, g *vkit.Rand) {
 	b := &gapBed{r: r, K: 4, N: r.N(5, 5) + g.Intn(3)}
 	b.arr = &arrivals{}
+	b.down = make([]int32, b.K)
 	for s := 0; s < b.N; s++ {
 		b.ever = append(b.ever, map[int]bool{})
 	}
@@ -182,10 +185,18 @@ func sparseTables(r *vkit.R, g *vkit.Rand) {
 			_ = up.Indexer.Add(buildUpstream(n, 1000000))
 		}
 		d := dispather.NewLimiterDispatcher(http.NotFoundHandler(), lim)
-		inner := b.arr.wrap(i, filters.WithExtraRequestInfo(http.HandlerFunc(d.Dispatch)))
+		i := i
+		real := filters.WithExtraRequestInfo(http.HandlerFunc(d.Dispatch))
+		inner := b.arr.wrap(i, http.HandlerFunc(func(w http.ResponseWriter, q *http.Request) {
+			if atomic.LoadInt32(&b.down[i]) == 1 { // the server is "down": it answers nothing useful (the arrival was recorded)
+				http.Error(w, "service unavailable", http.StatusServiceUnavailable)
+				return
+			}
+			real.ServeHTTP(w, q)
+		}))
 		b.arr.n = append(b.arr.n, map[string]int{})
 		ts.Config.Handler = http.HandlerFunc(func(w http.ResponseWriter, q *http.Request) {
-			if q.URL.Path == clientsets.ServerInfoUrl {
+			if q.URL.Path == clientsets.ServerInfoUrl && atomic.LoadInt32(&b.down[i]) == 0 { // only server-info requests that get an answer lead to a sync
 				b.arr.mu.Lock()
 				b.infoN++
 				b.arr.mu.Unlock()
@@ -221,6 +232,9 @@ func sparseTables(r *vkit.R, g *vkit.Rand) {
 				if want >= 0 {
 					r.Count("gw_sparse_published_judged", 1)
 					r.Distinct(vkit.Hash64("sparse", phase, n, op))
+					if atomic.LoadInt32(&b.down[want]) == 1 {
+						r.Count("gw_sparse_calls_for_unreachable_leader", 1)
+					}
 					if rerr != nil || len(arrived) != 1 || arrived[0] != want {
 						r.Violation("C13/gateway/sparse-leader-table/published-shard/request-at-wrong-server", fmt.Sprintf("%s for upstream %q (shard %d of %d, %s): the published table is [%s], so the leader is server %d; the request arrived at %v (resolve error: %v, call error: %v)",
 							op, n, ref, b.N, phase, tableString(b.table), want, arrived, rerr, cerr), wit)
@@ -280,10 +294,32 @@ func sparseTables(r *vkit.R, g *vkit.Rand) {
 			}
 			return t
 		}},
+		// every shard led again, but one leader is unreachable (answers 503 to everything, server info included) while the table
+		// still names it: its shards' calls must still be addressed to it (and fail) - a gateway must not fall back to a
+		// server that leads another shard. Another, non-leading role is not needed: with K=4 and N>=5 every server leads.
+		{"all shards led, one leader unreachable", func() []int {
+			for i := range b.down {
+				atomic.StoreInt32(&b.down[i], 0)
+			}
+			d := full[g.Intn(b.N)] // a server that leads at least one shard
+			atomic.StoreInt32(&b.down[d], 1)
+			r.Count("gw_sparse_leader_unreachable_phases", 1)
+			return append([]int(nil), full...)
+		}},
 	}
+	defer func() {
+		for i := range b.down {
+			atomic.StoreInt32(&b.down[i], 0)
+		}
+	}()
 	rounds := r.N(1, 3)
 	for round := 0; round < rounds; round++ {
 		for pi, ph := range phases {
+			if pi != len(phases)-1 {
+				for i := range b.down {
+					atomic.StoreInt32(&b.down[i], 0)
+				}
+			}
 			if ph.next != nil {
 				b.publish(ph.next())
 			} else if round > 0 {
